@@ -497,7 +497,10 @@ def dictview_seq(E, st, view):
         E.uses_quantifiers = True
         vals = z3.Select(E.arr(st, E.dvals_key(dv, vkk), z3.IntSort(), z3.ArraySort(K, sort_of(vkk))), dv.t)
         ax = z3.And(z3.Length(r) == z3.Length(order),
-                    z3.ForAll([i], z3.Implies(z3.And(i >= 0, i < z3.Length(order)), r[i] == z3.Select(vals, order[i]))))
+                    # well-formed ordered dict: the insertion order lists keys of the dict (kept by every write of the
+                    # engine; assumed of dicts that come from parameters or contracts, like len(order) == size)
+                    z3.ForAll([i], z3.Implies(z3.And(i >= 0, i < z3.Length(order)),
+                                              z3.And(r[i] == z3.Select(vals, order[i]), z3.Select(E.dkeys(st, dv), order[i])))))
         return st.assume(ax), V(Kind("seq", vkk), r)
     raise Unsupported("dict view %s as a sequence" % what)
 
